@@ -5,6 +5,9 @@ CONSTANTS
   UrgentClose = FALSE
   JobsLast = FALSE
   NoPush = {FALSE, TRUE}
+  AttrPairs <- AP_None
+  Faults = {}
+  MaxFaults = 0
 VIEW View
 INVARIANTS TypeOK C04 C05 C06 C07_Count C08 C26_Safe C26_Exact C07_Order C07_Prefix
 CHECK_DEADLOCK FALSE
